@@ -3,7 +3,7 @@ from pyvc.verify import Post, Case, Equiv
 from contracts import common
 
 PROPERTY = 'C10'
-REF_MODULES = ['ref_match']
+REF_MODULES = ['ref_match', 'ref_extra', 'ref_core']
 
 
 def config(cfg):
@@ -83,6 +83,8 @@ def contracts():
               requires=['len(self.children) >= 1'], ensures=['type(result) is And', 'same(result.children, self.children + (other,))'])]))
     cs.append(Post('matching.Or.__or__', cases=[Case('any', args={'self': 'inst:matching.Or', 'other': 'ref'},
               requires=['len(self.children) >= 1'], ensures=['type(result) is Or', 'same(result.children, self.children + (other,))'])]))
+    from contracts import extra
+    cs += common.shared(extra, ['matching.Switch.__init__', 'matching._Bool.__init__'])
     return cs
 
 
